@@ -607,6 +607,34 @@ def choose_convert_pairs(ctx, allowed, tier):
     return out
 
 
+def convert_acceptance_differential(ctx):
+    """Source level: both pipelines must agree on which convert(x, T) pairs compile (the conversion rules are enforced by
+    code generation, not by semantic analysis).  Includes Bytes[N] / String[N] sources, which the template families
+    do not enumerate."""
+    rnd = ctx.rng("convaccept")
+    names = ["uint256", "int256", "int8", "uint8", "int128", "uint160", "decimal", "bool", "address", "bytes4", "bytes20",
+             "bytes32", "F3", "Bytes[4]", "Bytes[32]", "Bytes[33]", "String[4]", "String[32]"]
+    prs = [(a, b) for a in names for b in names]
+    if ctx.tier == "quick":
+        prs = rnd.sample(prs, 70)
+    disagree = []
+    n = 0
+    for a, b in prs:
+        src = flag_decl(3) + f"\n@external\ndef f(x: {a}) -> {b}:\n    return convert(x, {b})\n"
+        res = []
+        for venom in (False, True):
+            try:
+                compile_src(src, Config(venom, "gas", "prague"), formats=("bytecode",))
+                res.append("compiles")
+            except Exception as e:  # noqa
+                res.append(type(e).__name__)
+        n += 1
+        if (res[0] == "compiles") != (res[1] == "compiles"):
+            disagree.append((a, b, res, src))
+    ctx.corr["convert_acceptance_pairs"] = n
+    return disagree
+
+
 def venom_extra_conversions(ctx, extras):
     """Pairs the Venom convert lowering accepts although the conversion rules (and the legacy pipeline) reject
     them.  Confirm on the real compiler with a truncation witness and report it as a failing input."""
@@ -806,7 +834,7 @@ def unsafe_glue(ctx, tys, cfgs):
             sels = {sig.split("(")[0]: int(h, 16).to_bytes(4, "big") for sig, h in out["method_identifiers"].items()}
             for uop in ops:
                 if (ty, uop) not in cases:
-                    cases[(ty, uop)] = unsafe_cases(uop, ty, rnd, 7) if uop not in EXTRA_BUILTINS else \
+                    cases[(ty, uop)] = unsafe_cases(uop, ty, rnd, 5 if ctx.tier == "quick" else 7) if uop not in EXTRA_BUILTINS else \
                         [(x, y) for x in type_grid(ty, rnd, 9) for y in (0, 1, 2, 7, 2**255, 2**256 - 1)]
                 cs = cases[(ty, uop)]
                 datas = [sels[f"f{uop}"] + word(x) + word(y) for x, y in cs]
@@ -916,7 +944,7 @@ def choose_types(ctx, all_tys):
     must = [(32, True, False), (32, False, False), (17, True, False), (16, True, False), (1, True, False),
             (21, True, True), (16, False, False), (17, False, False), (1, False, False), (31, True, False)]
     rest = [t for t in all_tys if t not in must]
-    return must + rnd.sample(rest, 4)
+    return must + rnd.sample(rest, 2)
 
 
 class report_quick:
@@ -1062,8 +1090,8 @@ def run(ctx):
         # quick tier: a seeded subset of types / literal shapes, unless a proof or tie is broken
         # (then Search over the whole family)
         if b["ok"]:
-            only = set(tys[:6] + tys[-2:]) if ctx.tier == "quick" else None
-            frac = 0.2 if ctx.tier == "quick" else 0.5
+            only = set(tys[:5] + tys[-1:]) if ctx.tier == "quick" else None
+            frac = 0.15 if ctx.tier == "quick" else 0.5
             force = ()
         else:
             # Search: the templates that differ from the proved model (all of them if Coq cannot tell), plus the
@@ -1102,7 +1130,7 @@ def run(ctx):
         if not templ or not b0["ok"]:
             continue
         if b["ok"]:
-            frac, force = (0.06 if ctx.tier == "quick" else 0.5), ()
+            frac, force = (0.035 if ctx.tier == "quick" else 0.5), ()
         else:
             bad = mismatching_pows(kind)
             ctx.log(f"search pow {kind}: {None if bad is None else len(bad)} templates differ from the model / have a wrong bound")
@@ -1133,7 +1161,7 @@ def run(ctx):
         if not templ or not b0["ok"]:
             continue
         if b["ok"]:
-            frac, force = (0.04 if ctx.tier == "quick" else 0.6), ()
+            frac, force = (0.025 if ctx.tier == "quick" else 0.6), ()
         else:
             bad = mismatching_unsafes(kind)
             ctx.log(f"search unchecked {kind}: {None if bad is None else len(bad)} templates differ from the model")
@@ -1154,7 +1182,7 @@ def run(ctx):
             if not found:
                 ctx.violation("correspondence-broken", f"Coq evaluator disagrees with the real back end + EVM on an exported {kind} unchecked-op template",
                               {"op": uop, "type": tyname(ty), "x": str(c[0]), "y": str(c[1]), "coq": str(l), "evm": str(g_)})
-    n, ufail = unsafe_glue(ctx, tys[:4] if ctx.tier == "quick" else tys, quick_glue_configs() if ctx.tier == "quick" else configs("quick"))
+    n, ufail = unsafe_glue(ctx, [(32, True, False), (32, False, False), (1, True, False), (1, False, False)] if ctx.tier == "quick" else tys, quick_glue_configs() if ctx.tier == "quick" else configs("quick"))
     total += n
     for f in ufail[:8]:
         found = True
@@ -1197,7 +1225,7 @@ def run(ctx):
         if not templ or not b0["ok"]:
             continue
         if b["ok"]:
-            frac, force = (0.02 if ctx.tier == "quick" else 0.15), ()
+            frac, force = (0.012 if ctx.tier == "quick" else 0.15), ()
         else:
             bad = mismatching_converts(kind)
             ctx.log(f"search convert {kind}: {None if bad is None else len(bad)} templates differ from the model")
@@ -1243,6 +1271,22 @@ def run(ctx):
                           key=f"convert-glue:{f['convert']}:{f['config']}")
     if venom_extra_conversions(ctx, vextra):
         found = True
+    dis = convert_acceptance_differential(ctx)
+    venom_only = [d for d in dis if d[2][1] == "compiles"]
+    if venom_only and not ctx.is_known("venom-convert-accepts:flag->bytes4"):
+        found = True
+    if venom_only:
+        # same root cause as the truncation witness above: no input-type validation in the venom convert lowering
+        ctx.violation("failing-input", "venom pipeline compiles convert() pairs that the legacy pipeline rejects",
+                      {"pairs": [f"{a} -> {b}: legacy {r[0]}, venom {r[1]}" for a, b, r, _ in venom_only[:30]],
+                       "source": venom_only[0][3], "config": "venom-gas-prague vs legacy-gas-prague",
+                       "expected": "the same accept/reject decision in both pipelines", "observed": "venom compiles it"},
+                      key="venom-convert-accepts:flag->bytes4")
+    for a, b, r, src in [d for d in dis if d[2][0] == "compiles"][:3]:
+        found = True
+        ctx.violation("failing-input", f"legacy pipeline compiles convert({a} -> {b}) but venom rejects it",
+                      {"source": src, "legacy": r[0], "venom": r[1], "expected": "the same accept/reject decision in both pipelines"},
+                      key=f"convert-accept-disagree:{a}->{b}")
     ctx.log(f"convert differentials done {time.time()-t0:.0f}s")
 
     if ctx.tier == "quick":
